@@ -53,7 +53,13 @@ func scratchRepo(patch string) (string, error) {
 	if err != nil {
 		return "", err
 	}
-	if out, err := exec.Command("cp", "-r", repoDir+"/.", dir).CombinedOutput(); err != nil {
+	src := repoDir
+	if b := os.Getenv("GTV_SELFTEST_BASE"); b != "" {
+		// a frozen copy of the tree, so that a long corpus run is not
+		// disturbed by edits made to /repo while it is running
+		src = b
+	}
+	if out, err := exec.Command("cp", "-r", src+"/.", dir).CombinedOutput(); err != nil {
 		os.RemoveAll(dir)
 		return "", fmt.Errorf("copy: %v %s", err, out)
 	}
@@ -82,9 +88,25 @@ type selfRow struct {
 // produce a VIOLATION for (one of) its properties; a neutral patch must not
 // produce one for any property it is run against.
 func RunSelftest(prop string, neutralProps []string) ([]selfRow, bool) {
+	return runSelftest(prop, neutralProps, 0)
+}
+
+// runSelftest: maxNeutral > 0 limits the neutral patches (chosen deterministically per property).
+func runSelftest(prop string, neutralProps []string, maxNeutral int) ([]selfRow, bool) {
 	var rows []selfRow
 	allOK := true
-	for _, ce := range loadCorpus() {
+	neutralSeen := 0
+	for ci, ce := range loadCorpus() {
+		if !ce.MustFail && maxNeutral > 0 {
+			h := 0
+			for _, c := range prop {
+				h = h*31 + int(c)
+			}
+			if (ci+h)%3 != 0 || neutralSeen >= maxNeutral {
+				continue
+			}
+			neutralSeen++
+		}
 		var props []string
 		if ce.MustFail {
 			for _, p := range ce.Props {
